@@ -400,6 +400,17 @@ func (ms *Modules) Process() []error {
 	for _, m := range mods {
 		ToEntry(m).Augment(true)
 	}
+	// An augment whose path leads through one of the case statements just
+	// inserted could only be applied now; what it put into a choice needs
+	// its case statement as well.
+	if len(mods) > 0 {
+		for _, m := range ms.Modules {
+			ToEntry(m).FixChoice()
+		}
+		for _, m := range ms.SubModules {
+			ToEntry(m).FixChoice()
+		}
+	}
 	// Collect the errors of all modules, not only of those with
 	// remaining augments: merging an augment records conflicts on the
 	// target, which may be in any module.
